@@ -440,6 +440,9 @@ pub fn profile_opts(profile: &str) -> GenOpts {
             o.feat = gen::Feat::mvp();
             o.feat.mutable_global = true;
             o.feat.multi_memory = true;
+            // bulk memory / table instructions and several tables (Exec.tla has them)
+            o.feat.bulk = true;
+            o.feat.reftypes = true;
         }
         _ => panic!("unknown profile {}", profile),
     }
